@@ -421,7 +421,8 @@ func (acl *ACL) AuthorizeConnection(conn *net.Conn, cmd []string, command intern
 		return nil
 	}
 
-	if len(append(readKeys, writeKeys...)) > 0 {
+	// (Only the lengths are needed: appending to readKeys would write into the command's own argument slice.)
+	if len(readKeys)+len(writeKeys) > 0 {
 		// 7. Check if nokeys is true
 		if connection.User.NoKeys {
 			return errors.New("not authorised to access any keys")
